@@ -8,7 +8,7 @@ for p in "$@"; do
   git -C /repo worktree add -q --detach $wt HEAD || exit 2
   ( cd $wt && for f in $(git ls-files | grep zz_verif_contracts.go); do git update-index --skip-worktree $f; rm -f $f; done )
   jq -c --arg p $p 'select(.id==$p)' /verif/properties.jsonl | jq . > /tmp/seed$r/$p.prop.json
-  for m in /verif/seeded/$p-*/meta.json; do jq -r '"- " + (.change // .needs_to_manifest // "")' $m; done > /tmp/seed$r/$p.taken.txt
+  grep -E "^\| [^|]*\b$p-[a-z]\b[^|]*\|" /verif/DESIGN.md | awk -F'|' '{print "-" $3}' > /tmp/seed$r/$p.taken.txt
   sed -e "s#WT#$wt#g" -e "s#PROPFILE#/tmp/seed$r/$p.prop.json#g" -e "s#TAKENFILE#/tmp/seed$r/$p.taken.txt#g" /verif/tools/prompts/seed_prompt_round8.txt > /tmp/seed$r/$p.prompt.txt
   echo /tmp/seed$r/$p.prompt.txt
 done
